@@ -771,7 +771,7 @@ class EFn(C.Fn):
             lname, sig, arrow, zero, succ, text))
         # the call at the loop statement
         self.env = outer_env
-        call = " ".join([lname, "W", "fuel"] + ([fixed_call] if fixed_call else []) + ["fuel"] + cur_args())
+        call = " ".join([lname, "W", "fuel"] + ([fixed_call] if fixed_call else []) + ["(loopFuel fuel)"] + cur_args())
         self.env = outer_env
         return pad + call
 
